@@ -57,9 +57,9 @@ def check_entry(ctx, kind, tag, log):
 
 def check_bm(ctx, k):
     size = 1 << 32
-    b0 = ctx.sandbox_base(32, "b0")
-    b1 = ctx.sandbox_base(32, "b1")
-    ctx.assume(b0 != b1)
+    b0 = ctx.sandbox_base(32, "b0", aligned=False)
+    b1 = ctx.sandbox_base(32, "b1", aligned=False)
+    ctx.assume(z3.Or(z3.UGE(b0, b1 + BV(1 << 32, 64)), z3.UGE(b1, b0 + BV(1 << 32, 64))))
     first = ctx.sym("first", 32)
     ctx.assume(z3.ULE(first, 1))
     addr = ctx.sym("addr", 64)
